@@ -11,6 +11,7 @@ func init() {
 	replayers["C10"] = replayC10
 	replayers["C20"] = replayC20
 	replayers["C08"] = replayClean
+	replayers["C06"] = replayC06
 	replayers["C01"] = replayClean
 }
 
@@ -527,4 +528,58 @@ func TestVerifReplayClean(t *testing.T) {
 		out = out[:4000] + "\n...(truncated)\n"
 	}
 	return !passed && strings.Contains(out, "REPRODUCED"), out
+}
+
+// ---------------------------------------------------------------------------
+// C06: the batch response is server-controlled.  The failed obligation says
+// the response must account for every object of the batch; the replay drives
+// the real queue against a server whose response omits the requested object.
+
+func replayC06(w *World, ob *Obligation, vc *VC) (bool, string) {
+	if !strings.Contains(ob.Name, "enqueueAndCollectRetriesFor#assert@loop_4_entry") {
+		return false, "no replay template for this obligation\n"
+	}
+	test := `package tq
+
+import (
+	"net/http"
+	"net/http/httptest"
+	"testing"
+	"time"
+
+	"github.com/git-lfs/git-lfs/v3/lfsapi"
+	"github.com/git-lfs/git-lfs/v3/lfshttp"
+)
+
+func TestVerifReplayC06(t *testing.T) {
+	srv := httptest.NewServer(http.HandlerFunc(func(w http.ResponseWriter, r *http.Request) {
+		w.Header().Set("Content-Type", "application/vnd.git-lfs+json")
+		w.Write([]byte(` + "`" + `{"transfer":"basic","objects":[]}` + "`" + `))
+	}))
+	defer srv.Close()
+	cli, err := lfsapi.NewClient(lfshttp.NewContext(nil, nil, map[string]string{"lfs.url": srv.URL, "lfs.transfer.maxretries": "1"}))
+	if err != nil {
+		t.Fatal(err)
+	}
+	m := NewManifest(nil, cli, "download", "origin")
+	q := NewTransferQueue(Download, m, "origin")
+	q.Add("a.bin", t.TempDir()+"/a.bin", "4d7a214614ab2935c943f9e0ff69d22eadbb8f32b1258daaa5e2ca24d17e2393", 12, false, nil)
+	done := make(chan struct{})
+	go func() { q.Wait(); close(done) }()
+	select {
+	case <-done:
+		t.Logf("Wait returned; errors: %v", q.Errors())
+		if len(q.Errors()) == 0 {
+			t.Errorf("REPRODUCED: the object was neither transferred nor covered by a reported error")
+		}
+	case <-time.After(5 * time.Second):
+		t.Errorf("REPRODUCED: batch response omitted the requested object; Wait() had not returned after 5s and no error was reported")
+	}
+}
+`
+	out, passed, err := runOverlayTest(w.repoDir, "tq", "zz_verif_replay_test.go", test, "TestVerifReplayC06")
+	if err != nil {
+		return false, "replay could not run: " + err.Error() + "\n"
+	}
+	return !passed && strings.Contains(out, "REPRODUCED"), trimOut(out)
 }
